@@ -122,6 +122,23 @@ CLAIMED = {
     note="Lattice end points inside small fixed grids; exact chord comparison for Cartesian identity map only; non-lattice rays only through the two end-to-end traces.",
     technique="TLA+ per-sample marching state machine with exact integer geometry, TLC behaviours replayed through the integrators",
     design="4.10"),
+ "C03": dict(
+    text="Emission.tla states the per-point composition rules of ExcitationLine, RecombinationLine, ThermalCXLine, TotalRadiatedPower and Bremsstrahlung over a 5-species universe "
+         "(neutral, bare, partially stripped; present / absent / zero / negative densities, zero temperatures, n_e and T_e incl. zero and negative): required species, eligible donors, which density multiplies "
+         "which integer coefficient, zero conditions; TLC checks zero-when-non-positive and non-negativity over ~61 000 configurations and each is executed on a real Plasma with a mock provider carrying the "
+         "spec's rate table: wavelength-integrated emission vs total/4pi (1e-9), uniform spread for radiated power, bin averages vs Hutchinson 5.3.40 with CODATA constants, RuntimeError for missing species, "
+         "and the provider accessor calls must be exactly those the rule prescribes.",
+    note="One point, constant distributions, Gaussian line shape in a window covering the line; negative donor/hydrogen densities (statement clauses disagree) observed only; real Gaunt tables not used.",
+    technique="TLA+ selection/composition rule table enumerated by TLC, one model evaluation per configuration + accessor-call trace check",
+    design="4.3"),
+ "C05": dict(
+    text="Emission.tla (beam part) gives the beam CX coefficient as the exact population-weighted mean (fractions over integer coefficients, two metastables, populations from the Z-weighted species sum) and "
+         "the beam-emission charged sum; TLC checks min q <= q <= max q and vanishing for zero beam density over all ion compositions; each configuration is executed through BeamCXLine / "
+         "BeamEmissionLine.emission on a real Beam with a constant-density attenuator stub, totals compared (1e-9) and every coefficient's evaluation arguments (E_int, T, total ion density, Z_eff, |B|; "
+         "sum Z^2 n / Z_i) compared with the spec's sums.",
+    note="Species at rest (interaction energy = beam energy); non-collinear flows not enumerated; constant mock coefficients.",
+    technique="TLA+ exact rational mean / charged sum enumerated by TLC, one emission call per configuration + argument trace check",
+    design="4.5"),
 }
 
 NOT_YET = {}
